@@ -171,6 +171,9 @@ package action
 //@   ensures [prepare-no-storage-write] Dwritten == old(Dwritten)
 //@   ensures [selectors-unchanged] upgradeDryRun(u) == old(upgradeDryRun(u))
 //@   ensures [C14] [schema-gate] !old(GschemaPassed)[chart] && result2 == nil ==> GschemaPassed[chart] && GschemaSkip[chart] == old(u.SkipSchemaValidation)
+//@   ensures [C01] [next-revision] result2 == nil ==> fresh(result1) && result1.Name == name && aboveAll(name, result1.Version) && result1.Info.Status == "pending-upgrade" && result0 != nil
+//@   ensures [C01] [C09] [pending-blocks] (exists v int :: Dex[mkkey(name, v)] && (forall w int :: Dex[mkkey(name, w)] ==> w <= v) && (Dst[mkkey(name, v)] == "pending-install" || Dst[mkkey(name, v)] == "pending-upgrade" || Dst[mkkey(name, v)] == "pending-rollback")) ==> result2 != nil
+//@   ensures [C13] [current-is-deployed-if-any] result2 == nil && (exists v int :: Dex[mkkey(name, v)] && Dst[mkkey(name, v)] == "deployed") ==> result0.Info.Status == "deployed"
 //@   ensures [results] result2 == nil ==> result0 != nil && result1 != nil && result1.Info != nil
 
 //@ func (*Upgrade).performUpgrade
@@ -206,6 +209,8 @@ package action
 //@   ensures [prepare-no-storage-write] Dwritten == old(Dwritten)
 //@   ensures [selector-unchanged] r.DryRun == old(r.DryRun)
 //@   ensures [results] result2 == nil ==> result0 != nil && result0.Info != nil && result1 != nil && result1.Info != nil && hooksNonNil(result1.Hooks)
+//@   ensures [C01] [next-revision] result2 == nil ==> fresh(result1) && result1.Name == name && aboveAll(name, result1.Version) && result1.Version == result0.Version + 1 && result1.Info.Status == "pending-rollback"
+//@   ensures [C01] [C13] [carries-target-revision] result2 == nil ==> exists prev *release.Release :: stored(prev) && prev.Name == name && (old(r.Version) != 0 ==> prev.Version == old(r.Version)) && (old(r.Version) == 0 ==> prev.Version == result0.Version - 1) && result1.Chart == prev.Chart && result1.Config == prev.Config && result1.Manifest == prev.Manifest && result1.Hooks == prev.Hooks && result1.Labels == prev.Labels
 
 //@ func (*Rollback).Run
 //@   props C06
